@@ -294,6 +294,10 @@ def dateTimeOfDay (fd pd : DateTime) (dateTimex : Str) (p : Pod) : Res :=
   let v := p.range
   .ok (dateTimex ++ v.timeStr) (todBegin fd.date v) (todEnd fd.date v) (todBegin pd.date v) (todEnd pd.date v)
 
+/-- `unit_str[0]` of `H` / `M` / `S` -/
+def hmsLetter : TUnit → Nat
+  | .H => 72 | .M => 77 | .S => 83
+
 /-- `__parse_common_duration_with_unit(before, unit, num, swift, reference)` for a whole number `n` of units
 (`num` = its text, `swift = float(n)`): `u` = `unit_map[unit]` when it is `H` / `M` / `S` (`none`: the unit is not in the map
 or is a date unit — no result); `hasPast` / `hasFuture`: the text before the number is exactly a match of `PastRegex` /
@@ -306,9 +310,7 @@ def commonDurationHMS (ref : DateTime) (u : Option TUnit) (num : Str) (n : Nat) 
     else
       match (if hasPast then addSeconds ref (-((n : Int) * u.seconds)) else some ref),
             (if hasFuture then addSeconds ref ((n : Int) * u.seconds) else some ref) with
-      | some b, some e =>
-        let letter : Nat := match u with | .H => 72 | .M => 77 | .S => 83
-        .ok (triple (luisPoint b) (luisPoint e) ([80, 84] ++ num ++ [letter])) b e b e
+      | some b, some e => .ok (triple (luisPoint b) (luisPoint e) ([80, 84] ++ num ++ [hmsLetter u])) b e b e
       | _, _ => .raises
 
 /-! ## `ChineseSetParser` -/
